@@ -242,6 +242,21 @@ pub fn run(ctx: &Ctx) {
         }
     });
     ctx.space("build: 12 rcodes x 256 versions; udp sizes x option lists x 0..=2 other records", work.len() as u64, "complete");
+    {
+        // EDNS at the ceilings: an OPT record whose options exceed 65535 bytes of RDATA, and the
+        // OPT record as the last entry an additional section can hold
+        let cases: Vec<(&'static str, usize)> = super::c04::ceiling_cases().into_iter().filter(|(k, _)| *k == "opt-rdata" || *k == "additional+opt").collect();
+        par_shards(ctx, &cases, |(kind, n), t: &mut Tally| {
+            t.evals += 1;
+            t.nontrivial += 1;
+            let f: Vec<Finding> = super::c04::check_ceiling(kind, *n).into_iter().map(|f| Finding { sig: f.sig.replacen("C04|", "C09|", 1), ..f }).collect();
+            t.outcome(if f.is_empty() { "ok" } else { "bad" });
+            if !f.is_empty() {
+                ctx.violations(f);
+            }
+        });
+        ctx.space("EDNS at the 16-bit ceilings: OPT records of 254..600 options of 252 bytes, additional sections of 65533..131073 records plus the OPT record, both vector builds and both writers", cases.len() as u64, "complete");
+    }
     ctx.sample(json!({"kind": "build", "packet": work[300]}));
     // parse side
     let mut pw: Vec<(RefPacket, usize)> = Vec::new();
@@ -330,6 +345,9 @@ pub fn run(ctx: &Ctx) {
 }
 
 pub fn replay(case: &Value) -> Vec<Finding> {
+    if case["kind"].as_str() == Some("ceiling") {
+        return super::c04::check_ceiling(case["what"].as_str().unwrap_or(""), case["n"].as_u64().unwrap_or(0) as usize).into_iter().map(|f| Finding { sig: f.sig.replacen("C04|", "C09|", 1), ..f }).collect();
+    }
     let p: RefPacket = match serde_json::from_value(case["packet"].clone()) {
         Ok(p) => p,
         Err(e) => return vec![finding("C09|replay-unreadable", format!("{}", e), case.clone())],
